@@ -31,6 +31,8 @@ impl<'a> VariableInAllowedPosition<'a> {
         ctx: &mut VisitorContext<'a>,
         visited: &mut HashSet<Scope<'a>>,
     ) {
+        #[cfg(async_graphql_verif)]
+        crate::verif_hooks::count("variables_in_allowed_position");
         if visited.contains(from) {
             return;
         }
